@@ -474,11 +474,11 @@ def sp_ILP_cons_ones_vot_del_cstr(model, left_of_vars, voter_vars, instance, alt
     :type alt_map: dict[_, int]
     """
     matrix = sp_cons_ones_matrix(instance, alt_map)
-    voter_index = -1
+    # The matrix has one row per indifference class of each order
+    row_to_voter = [v for v, order in enumerate(instance.orders) for _ in order]
     for row_index in range(len(matrix)):
         row = matrix[row_index]
-        if sum(row) == 1:
-            voter_index += 1
+        voter_index = row_to_voter[row_index]
         zeros = set()
         ones = set()
         for index, value in enumerate(row):
